@@ -11,6 +11,6 @@ if [ "$patch" != "-" ]; then (cd "$w/repo" && git init -q . 2>/dev/null; git -C 
 cp /verif/KNOWN_FINDINGS.txt "$w/verif/" 2>/dev/null
 rc=0
 for p in "$@"; do
-  SVCLINT_REPO="$w/repo" SVCLINT_VERIF="$w/verif" /verif/bin/svclint check -p "$p" 2>&1 | grep -v "^KNOWN-FINDING" | sed "s#$w/repo/##g" || true
+  SVCLINT_REPO="$w/repo" SVCLINT_VERIF="$w/verif" ${SVCLINT_BIN:-/verif/bin/svclint} check -p "$p" 2>&1 | grep -v "^KNOWN-FINDING" | sed "s#$w/repo/##g" || true
 done
 rm -rf "$w"
